@@ -76,12 +76,19 @@ package pools
 //
 // Unexported identifiers used: TransactionPool.feeThresholdMultiplier, .numPendingWholeBlocks (key only).
 //
-// Mutants (bin/mut, quick tier), see report:
-//   M1 endOfBlock (generate) does not fill FeesCollected when payouts are enabled
-//   M2 eval.Eval prefetches accounts at round-2 instead of the evaluation base round (stale account)
-//   M3 WithProposer keeps ProposerPayout for an ineligible proposer
-//   M4 the pre-fetched account overrides what the evaluator base already holds (multi-step)
-//   M5 generating evaluator forgets the txn counter in the header (TxnCounter)
+// Mutants (bin/mut, quick tier; all DETECTED):
+//   M1 endOfBlock (generate) does not fill FeesCollected when payouts are enabled. In this code
+//      base the generating evaluator also runs validateForPayouts on its own block, so the bare
+//      mutant only makes GenerateBlock fail (the pool then proposes empty blocks: a liveness loss,
+//      reported as harness failure, not a verdict). Adapted: that self-check is first restricted
+//      to !eval.generate (neutral on its own), then the mutant is applied: block 1 and every
+//      proposal with fees is refused by Validate ("fees collected wrong") -> C20:external-block-rejected
+//   M2 eval.Eval hands the prefetcher round-2 instead of the evaluation base round (a stale
+//      prefetched account enters roundCowBase) -> C20:delta-differs-noprefetch after [Remember(PE)] + Tick
+//   M3 Block.WithProposer keeps ProposerPayout for an ineligible proposer -> C20:payout-ineligible
+//   M4 (own, needs Remember(PCL) then a round) UnfinishedBlock.FinishBlock no longer drops the
+//      payout of a proposer that closed its account in the block -> C20:proposal-rejected
+//   (a generator forgetting TxnCounter is caught by the generator's own end-of-block checks, like bare M1)
 
 import (
 	"bytes"
@@ -529,10 +536,11 @@ func (w *c20world) eligible(l *ledger.Ledger, rnd basics.Round, proposer basics.
 }
 
 type c20sys struct {
-	w    *c20world
-	l1   *ledger.Ledger
-	pool *TransactionPool
-	bad  error
+	w      *c20world
+	l1     *ledger.Ledger
+	pool   *TransactionPool
+	bad    error
+	badKey string // set when bad is a property violation (a generated block was refused), not a harness failure
 
 	hist     []bookkeeping.Block
 	histName []string
@@ -601,7 +609,10 @@ func c20New(w *c20world) *c20sys {
 	blk := ub.FinishBlock(w.seed, w.addrs[c20Q], false)
 	cfg := c20LedgerCfg(true)
 	if err := s.addToL1(blk, "Q", false); err != nil {
-		s.bad = fmt.Errorf("prefix block: %w", err)
+		// a block generated by the real evaluator and finished like a proposal is refused by
+		// validation on the same state: that is the property, not a harness problem
+		s.bad = fmt.Errorf("block 1 [CREATE,FUND,KEYREG] generated by a fresh evaluator for proposer Q is not accepted: %w", err)
+		s.badKey = "C20:external-block-rejected"
 		return s
 	}
 	s.pool = MakeTransactionPool(l, cfg, c20Logger(), w)
@@ -1303,14 +1314,19 @@ func TestVerif_C20(t *testing.T) {
 	}
 	probe := c20New(w)
 	if probe.bad != nil {
-		t.Fatalf("C20 harness: start state cannot be built: %v", probe.bad)
+		if probe.badKey == "" {
+			t.Fatalf("C20 harness: start state cannot be built: %v", probe.bad)
+		}
+		r.Report(probe.badKey, probe.bad.Error(), map[string]any{"engine": "seq", "harness": "propose", "ops": []int{}})
+		probe.close()
+		if n := r.Finish(ve.Coverage{Rule: "start state only: block 1 was refused"}); n > 0 {
+			t.Fatalf("C20: %d violation(s)", n)
+		}
+		return
 	}
 	probe.close()
 	nOps := w.nItems + 3
 	depth := ve.Pick(3, 6)
-	if v := ve.Env("VERIF_C20_DEPTH", ""); v != "" {
-		fmt.Sscan(v, &depth)
-	}
 	q := &ve.Seq[*c20h]{
 		Name:   "propose",
 		NumOps: nOps,
